@@ -127,7 +127,10 @@ def Spec.taper (E : Env K) (thr : K) (s : Spec K) (wl : Option (List K)) :
     Except Err (Option (Spec K)) := do
   let m ← s.model
   let x ← match wl with
-    | some w => do validateWavelengths w; pure w
+    | some w => do
+        validateWavelengths w
+        -- the end points are matched with the end values on ascending wavelengths (cfa13db)
+        pure (if isDesc w then w.reverse else w)
     | Option.none => wavesetOrErr thr m
   match x with
   | x0 :: x1 :: _ =>
